@@ -310,7 +310,9 @@ def run_property(pid, tier='quick', seed=0):
         'wall_s': round(time.time() - t_start, 2),
         'violations': len(violations),
     }
-    json.dump(ev, open(os.path.join(HERE, 'evidence', pid + '.json'), 'w'), indent=1, default=str)
+    evdir = os.environ.get('VERIF_EVIDENCE_DIR') or os.path.join(HERE, 'evidence')
+    os.makedirs(evdir, exist_ok=True)
+    json.dump(ev, open(os.path.join(evdir, pid + '.json'), 'w'), indent=1, default=str)
     for ln in lines:
         print(ln)
     print('%s tier=%s obligations=%d discharged=%d refuted=%d undecided=%d downgraded=%d bounded_evals=%d exit=%d wall=%.1fs' % (
